@@ -132,6 +132,7 @@ void res_eval(long n);                              /* oracle evaluations */
 void res_bucket(const char *fmt, ...);              /* a distinct non-trivial bucket observed */
 void res_viol(const char *prop, const char *key, const char *fmt, ...);
 void res_count(const char *name, long n);           /* named counter */
+void res_metric(const char *name, double v);        /* named real-valued observation; the orchestrator keeps min/max */
 void res_sample(const char *fmt, ...);              /* free-form description of the case (JSON string content) */
 void res_end(void);
 int  res_nviol(void);
